@@ -19,7 +19,7 @@ _INTERIOR_OPS = [op for op in mutate.OPS if op not in ("append-junk",)]
 
 @st.composite
 def unit(draw: t.Any, side: str, nprep: int, idx: int) -> t.Any:
-    kind = draw(st.sampled_from(["valid", "valid", "valid-forms", "valid-big", "valid-any", "interior", "interior", "interior", "paged", "interior-random", "nonseq-outer"]))
+    kind = draw(st.sampled_from(["valid", "valid", "valid-forms", "valid-big", "valid-any", "interior", "interior", "interior", "paged", "interior-random", "nonseq-outer", "empty-outer"]))
     rid = draw(st.integers(0, nprep - 1)) if nprep else None
     if side == "server":
         base = gens.memo("c06.server", lambda: gens.message(kinds=["searchRequest", "extendedReq"], filt=gens.filters(max_leaves=4), ids=st.just(0))).map(
@@ -49,6 +49,10 @@ def unit(draw: t.Any, side: str, nprep: int, idx: int) -> t.Any:
         v = draw(st.sampled_from(_PAGED_VALUES))
         m["controls"] = [("generic", rfc4511.OID_PAGED, draw(st.booleans()), v)]
         return ("paged", m, rid)
+    if kind == "empty-outer":
+        # a complete outer TLV with NO content, its zero length in short or (padded) long form
+        return ("empty-outer", draw(st.sampled_from([b"\x30\x00", b"\x30\x81\x00", b"\x30\x82\x00\x00", b"\x30\x84\x00\x00\x00\x00",
+                                                      b"\x30\x88" + b"\x00" * 8, b"\x04\x81\x00", b"\x60\x82\x00\x00"])))
     if kind == "nonseq-outer":
         form = draw(st.sampled_from(["octets", "set", "app", "ctx", "int"]))
         return ("nonseq-outer", form, draw(st.binary(max_size=10)), draw(base), rid)
@@ -96,6 +100,8 @@ def rewrap_outer(original: bytes, mutated: bytes) -> bytes:
 def unit_bytes(u: t.Any, ids: t.List[int]) -> t.Tuple[bytes, str, bool]:
     """-> (bytes of one complete outer TLV, label, malformed?)"""
     k = u[0]
+    if k == "empty-outer":
+        return u[1], "empty-outer", True
     if k == "nonseq-outer":
         form, rnd, m, rid = u[1], u[2], dict(u[3]), u[4]
         if rid is not None and rid < len(ids):
@@ -119,7 +125,7 @@ def unit_bytes(u: t.Any, ids: t.List[int]) -> t.Tuple[bytes, str, bool]:
     if k == "valid-any":
         return data, f"valid-any:{m['kind']}", True
     if k == "valid-forms":
-        return rfc4511.encode(m, rfc4511.Knobs(u[3], kinds=("length",))), "valid-forms", False
+        return rfc4511.encode(m, rfc4511.Knobs(u[3], kinds=("length-wide",))), "valid-forms", False
     if k == "paged":
         v = m["controls"][0][3]
         return data, f"paged-value:{'absent' if v is None else v.hex() or 'empty'}", True
@@ -183,10 +189,13 @@ def check_case(c: t.Dict[str, t.Any], ctx: Ctx) -> t.List[Violation]:
     got = 0
     pos = 0
     for i, ch in enumerate(gens.apply_cuts(stream, cuts)):
-        obj, _b = wrap(ch, c["containers"][i % len(c["containers"])])
+        obj, backing = wrap(ch, c["containers"][i % len(c["containers"])])
         pos += len(ch)
         try:
             r = s.receive(obj)
+            if backing is not None:
+                # the caller reuses its buffer (recv_into): whatever the session holds back must be its own copy
+                backing[:] = b"\xaa" * len(backing)
         except ProtocolError:
             ctx.event("outcome:protocol-error")
             return []
